@@ -133,7 +133,7 @@ impl Check for C11 {
                     }
                 }
             }
-            clients.push(ClientProg { reqs, chunk_seed: r.next_u64(), magic: true, bye: true, pipeline });
+            clients.push(ClientProg { reqs, chunk_seed: r.next_u64(), magic: true, bye: true, pipeline, pad: Vec::new() });
         }
         HubSc {
             seed: r.next_u64(),
@@ -327,7 +327,7 @@ impl Check for C12 {
         "exploration"
     }
     fn rule(&self) -> String {
-        "one run = one byte stream fed to a real serve process in seeded pieces and closed at a chosen offset: random bytes (with and without the COPIA1 prologue, banner text before it), valid sessions with a frame mutated / truncated / duplicated / reordered, length prefixes {0,1,2^20-1,2^20,2^20+1,2^24,2^31,2^32-1}, CBOR heads declaring up to 2^64-1 bytes or 2^32 elements, indefinite lengths, nesting depth to 100000; or a structured session in which well-framed requests provoke error replies (bad path with body, hash mismatch, not found) and is compared with the same session without them. Thorough also closes the input at every byte offset of sampled sessions. Non-trivial = the server consumed at least one complete frame or rejected a hostile length; distinct = hash of (stream bytes, cut)".into()
+        "one run = one byte stream fed to a real serve process in seeded pieces and closed at a chosen offset: random bytes (with and without the COPIA1 prologue, banner text before it), valid sessions with a frame mutated / truncated / duplicated / reordered, length prefixes {0,1,2^20-1,2^20,2^20+1,2^24,2^31,2^32-1}, CBOR heads declaring up to 2^64-1 bytes or 2^32 elements, indefinite lengths, nesting depth to 100000; or a structured session in which well-framed requests provoke error replies (bad path with body, hash mismatch, not found; some frames carrying surplus bytes after their CBOR item) and is compared with the same session without them. Thorough also closes the input at every byte offset of sampled sessions. Non-trivial = the server consumed at least one complete frame or rejected a hostile length; distinct = hash of (stream bytes, cut)".into()
     }
     fn assumptions(&self) -> Vec<String> {
         vec![
@@ -374,10 +374,30 @@ impl Check for C12 {
                     _ => reqs.push(Req::Delete { path: "k1".into(), expected: Exp::Learned }),
                 }
             }
+            // a quarter of the sessions: one or two frames carry surplus bytes after their CBOR item
+            // (the length prefix covers them) — zeros, noise, or a complete hidden Delete frame.
+            // The request inside is complete, so it must be served as if the surplus were not there.
+            let mut pad: Vec<(u32, String)> = Vec::new();
+            if r.below(4) == 0 && !reqs.is_empty() {
+                for _ in 0..r.urange(1, 2) {
+                    let idx = r.usize_below(reqs.len()) as u32;
+                    let bytes = match r.below(3) {
+                        0 => vec![0u8; r.urange(1, 16)],
+                        1 => {
+                            let n = r.urange(1, 40);
+                            r.bytes(n)
+                        }
+                        _ => frame(&Request::Delete { path: "k1".into(), expected: None }),
+                    };
+                    if !pad.iter().any(|(i, _)| *i == idx) {
+                        pad.push((idx, hex(&bytes)));
+                    }
+                }
+            }
             let sess = HubSc {
                 seed: r.next_u64(),
                 init: vec![("k1".into(), 1)],
-                clients: vec![ClientProg { reqs, chunk_seed: r.next_u64(), magic: true, bye: r.coin(), pipeline: r.below(3) == 0 }],
+                clients: vec![ClientProg { reqs, chunk_seed: r.next_u64(), magic: true, bye: r.coin(), pipeline: r.below(3) == 0, pad }],
                 policy: PolicySpec { kind: 0, a: 0, b: 0 },
                 pipe_cap: *r.pick(&[4096u32, 65536]),
                 short_read_pct: *r.pick(&[0u32, 40]),
@@ -526,13 +546,18 @@ impl Check for C12 {
                     *q = Req::Hello;
                 }
             }
+            // (the control session's frames carry no surplus bytes)
+            ctl.clients[0].pad.clear();
+            if !sess.clients[0].pad.is_empty() {
+                rep.fault("frame_with_surplus_bytes", sess.clients[0].pad.len() as u64);
+            }
             let crun = run_hub(&ctl, None);
             rep.execs = 2;
             rep.steps = run.out.stats.steps + crun.out.stats.steps;
             let (a, b) = (all_ops(&run.logs), all_ops(&crun.logs));
             let nerr = sess.clients[0].reqs.iter().filter(|q| is_err_req(q)).count();
             rep.probe("error_reply_requests", nerr as u64);
-            rep.nontrivial = nerr > 0;
+            rep.nontrivial = nerr > 0 || !sess.clients[0].pad.is_empty();
             rep.shape = fnv(&[fnv_bytes(serde_json::to_string(&sess.clients).unwrap_or_default().as_bytes())]);
             for p in run.out.procs.iter().chain(crun.out.procs.iter()) {
                 if let ExitKind::Aborted(m) = &p.exit {
@@ -606,6 +631,7 @@ impl Check for C12 {
                 magic: false,
                 bye: false,
                 pipeline: false,
+                pad: Vec::new(),
             }],
             policy: PolicySpec { kind: 0, a: 0, b: 0 },
             pipe_cap: sc.pipe_cap,
